@@ -191,6 +191,17 @@ def run_one(sc):
         _REC["events"] = []
         _REC["on"] = True
         outcome, exc = "returned", ""
+        # what rtf_encode() returns in THIS call (an injected Exception may be absorbed inside the
+        # library, e.g. by the text-conversion service, and legitimately change the string)
+        import rtflite
+        captured = []
+        orig_encode = rtflite.RTFDocument.rtf_encode
+
+        def _capturing_encode(self):
+            r = orig_encode(self)
+            captured.append(r)
+            return r
+        rtflite.RTFDocument.rtf_encode = _capturing_encode
         sys.settrace(tracer if k else None)
         try:
             with contextlib.redirect_stdout(io.StringIO()):
@@ -199,8 +210,11 @@ def run_one(sc):
             outcome, exc = "raised", type(ex).__name__
         finally:
             sys.settrace(None)
+            rtflite.RTFDocument.rtf_encode = orig_encode
             _REC["on"] = False
             tempfile.tempdir = old_tmp
+        if captured:
+            expected_rtf = captured[-1]
         after = snap()
         tp = os.path.realpath(target)
         pp = os.path.realpath(parent)
